@@ -191,7 +191,7 @@ def gen_workload(tape):
     serial = 0
     for i in range(n):
         kinds = ["write", "write", "write", "move", "copy", "delete", "dry_delete",
-                 "collect", "find", "overwrite", "read", "move"]
+                 "collect", "find", "overwrite", "read", "move", "single"]
         op = tape.pick(kinds, "op") if i >= 2 else "write"
         o = {"op": op}
         if op in ("write", "overwrite"):
@@ -237,6 +237,16 @@ def gen_workload(tape):
         elif op == "read":
             o["fs"] = tape.choice(3, "which_fs")
             o["idx"] = tape.choice(12, "ridx")
+            # one read with arguments of its own (they take precedence for
+            # this call only), followed by an ordinary read
+            o["call_args"] = tape.flag("call_args", 1, 3)
+        elif op == "single":
+            # a single-file fileset (path without placeholders) is moved /
+            # copied / converted: the branch that does not go through map()
+            o["copy"] = tape.flag("scopy", 1, 2)
+            o["convert"] = tape.flag("sconvert", 1, 2)
+            o["as_fileset"] = tape.flag("sasfs", 1, 2)
+            o["serial"] = 900 + i
         ops.append(o)
     w["ops"] = ops
     w["base"] = tape.choice(len(BASES), "base")
@@ -611,6 +621,9 @@ class Run:
                 if ms.kind == "pickle_z":
                     self.sim.probe("compressed_written")
             return
+        if kind == "single":
+            self.single_file_move(i, o)
+            return
         if o["fs"] >= len(self.sets):
             return
         ms = self.sets[o["fs"]]
@@ -619,7 +632,22 @@ class Run:
             return
         if kind == "read":
             mine = sorted(mine_all, key=lambda f: f.path)
-            self.check_content(mine[o["idx"] % len(mine)], "read")
+            mf = mine[o["idx"] % len(mine)]
+            if o.get("call_args") and ms.kind.startswith("pickle") and \
+                    (mf.verbatim_kind is None or mf.verbatim_kind == _suffix_class(ms.ext)):
+                self.sim.probe("read_with_arguments_of_its_own")
+                try:
+                    got = ms.obj.read(mf.path, tag="ONCE")
+                    want = dict(self.expected_read(mf), read_tag="ONCE")
+                    if got != want:
+                        self.V.append(_viol(
+                            "C11/read/per-call-arguments",
+                            f"read(..., tag='ONCE') gave {_short(got)}, expected "
+                            f"{_short(want)}"))
+                except Exception as e:  # noqa
+                    self.V.append(_viol(f"C11/read/exception/{type(e).__name__}",
+                                        f"{e}"[:300]))
+            self.check_content(mf, "read")
             return
         kw, chosen = self.select(ms, o)
         extra = {}
@@ -830,6 +858,51 @@ class Run:
                 self.compare("rewrite")
                 if old.path in self.files:
                     self.check_content(self.files[old.path], "rewrite")
+
+    def single_file_move(self, i, o):
+        """move/copy/convert of a single-file fileset (outside the data tree)."""
+        w = self.w
+        if not w["kind"].startswith("pickle"):
+            return
+        FileSet, FileHandler = _T["FileSet"], _T["FileHandler"]
+        d = os.path.join(self.root, "single", f"op{i}")
+        os.makedirs(os.path.join(d, "to"))
+        src, dst = os.path.join(d, "one.dat"), os.path.join(d, "to", "other.dat")
+        kw = dict(handler=FileHandler(reader=p_reader, writer=p_writer), fs=SimLocalFS())
+        payload = _payload("pickle", o["serial"], _T["xr"])
+        self.sim.probe("single_file_fileset_moved")
+        try:
+            one = FileSet(src, name=f"ONE{i}", **kw)
+            one.write(payload, src)
+            sha = _sha(src)
+            target = FileSet(dst, name=f"TO{i}", **kw) if o["as_fileset"] else dst
+            one.move(target, copy=o["copy"], convert=o["convert"])
+        except Exception as e:  # noqa
+            self.V.append(_viol(f"C11/single/exception/{type(e).__name__}",
+                                f"single-file move(copy={o['copy']}, "
+                                f"convert={o['convert']}): {e}"[:300]))
+            return
+        desc = f"single-file move(copy={o['copy']}, convert={o['convert']})"
+        if os.path.exists(src) != o["copy"]:
+            self.V.append(_viol(
+                "C11/single/original",
+                f"{desc}: original {'removed' if o['copy'] else 'still there'}"))
+        if not os.path.exists(dst):
+            self.V.append(_viol("C11/single/target-missing", desc))
+            return
+        try:
+            got = _unpickle_any(dst)
+        except Exception as e:  # noqa
+            self.V.append(_viol("C11/single/target-unreadable", f"{desc}: {e}"[:200]))
+            return
+        if got != payload:
+            self.V.append(_viol("C11/single/content",
+                                f"{desc}: target holds {_short(got)}"))
+        if not o["convert"] and _sha(dst) != sha:
+            self.V.append(_viol("C11/single/bytes-changed",
+                                f"{desc}: the copy is not byte-identical"))
+        if os.path.exists(src) and _sha(src) != sha:
+            self.V.append(_viol("C11/single/original-changed", desc))
 
     def after_write_fault(self, kind, plan, copy, convert, tkind, target_ms):
         """The handler's write failed for one file of a converting move/copy.
